@@ -30,6 +30,7 @@ type Parser struct {
 	args        []Term
 
 	buf tokenRingBuffer
+	err error
 }
 
 // ParsedVariable is a set of information regarding a variable in a parsed term.
@@ -103,11 +104,18 @@ func (p *Parser) next() (Token, error) {
 	if p.buf.empty() {
 		t, err := p.lexer.Token()
 		if err != nil {
-			return Token{}, err
+			// The failure takes a place in the buffer like a token does. Otherwise, a backup() after it would
+			// step back over the token before it, and the parser would read that token over and over again.
+			p.err = err
+			t = Token{kind: tokenError}
 		}
 		p.buf.put(t)
 	}
-	return p.buf.get(), nil
+	t := p.buf.get()
+	if t.kind == tokenError {
+		return Token{}, p.err
+	}
+	return t, nil
 }
 
 func (p *Parser) backup() {
